@@ -107,17 +107,22 @@ def cmd_replay(path):
             v, d = seqcheck.judge_one(script, None, wd, "replay", meta.get("flavour", "asan"))
         elif mode == "rrstat":
             import rrstat
-            r = rrstat.judge_script(script, wd, "replay")
+            rr = rrstat.judge_scripts(vlib.split_executions(script), wd, "replay")
             shutil.rmtree(wd, ignore_errors=True)
-            if r.get("infra"):
-                print("replay: infrastructure failure\n" + r["infra"])
-                return 2
-            if r.get("rejected") or not r.get("ok", True):
-                print("replay: rr_cache evictions by insertion rank: %s (capacity %s, %s evictions): the choice is not "
-                      "spread over the residents" % (r.get("hits"), r.get("cap"), r.get("n")))
+            bad = 0
+            for r in rr:
+                if r.get("infra"):
+                    print("replay: infrastructure failure\n" + r["infra"])
+                    return 2
+                if r.get("rejected") or not r.get("ok", True):
+                    bad += 1
+                    print("replay: rr_cache evictions by insertion rank: %s (capacity %s, %s evictions): the choice is "
+                          "not spread over the residents" % (r.get("hits"), r.get("cap"), r.get("n")))
+                else:
+                    print("replay: capacity %s accepted, evictions by insertion rank %s" % (r.get("cap"), r.get("hits")))
+            if bad:
                 print("VIOLATION property=%s replay=%s" % (prop, path))
                 return 1
-            print("replay: accepted, evictions by insertion rank %s" % r.get("hits"))
             return 0
         elif mode == "pair":
             ex = meta.get("extra", "none")
@@ -309,12 +314,15 @@ def check_seq(prop, tier):
         if rs["infra"]:
             infra = rs["infra"]
         extra_cov["spread_statistic"] = rs["runs"]
-        for c, sc, r in rs["violations"][:2]:
-            v2r = rrstat.judge_script(sc, os.path.join(wd, "rrstat"), "again%d" % c)
-            if v2r.get("ok", True):
+        if rs["violations"]:
+            # the replay is the whole ascending-capacity run (one process), re-judged once more
+            allsc = [ln for sc in rs["scripts"] for ln in sc]
+            again = rrstat.judge_scripts(rs["scripts"], os.path.join(wd, "rrstat"), "again")
+            if all(a.get("ok", True) for a in again):
                 log("spread rejection did not repeat; not reported")
-                continue
-            p = write_replay(prop, sc, ["C15"], "rrstat")
+                rs["violations"] = []
+        for c, sc, r in rs["violations"][:1]:
+            p = write_replay(prop, allsc, ["C15"], "rrstat")
             log("rr_cache capacity %d: evictions by insertion rank %s" % (c, r["hits"]))
             viol.append("VIOLATION property=%s replay=%s" % (prop, p))
 
